@@ -12,4 +12,7 @@ CONSTANTS
   Loop = TRUE
   AddGate = FALSE
   MaxHeal = 1
+  Est = FALSE
+  Rcv = FALSE
+  MaxSilent = 0
 CHECK_DEADLOCK FALSE
